@@ -297,6 +297,14 @@ def s2sNonceLoop (cfg : Cfg) (now : Nat) : List VP → Store Unit → Store Unit
       | some _ => (st, .err "invalid_request/nonce-reused")
       | none => s2sNonceLoop cfg now rest (st.put now cfg.nonceTtl vp.nonce ())
 
+/-- the nonce check under a store fault: when the READ of the first nonce entry fails, `PutIfAbsent` returns the
+    error and the handler answers "unable to store nonce" - nothing is stored, no token (fail closed) -/
+def nonceCheck (cfg : Cfg) (now : Nat) (fault : Bool) (vps : List VP) (st : Store Unit) : Store Unit × Res Unit :=
+  match fault, vps with
+  | true, vp :: _ =>
+    if vp.nonce = "" then (st, .err "invalid_request/nonce-missing") else (st, .err "nonce-store-error")
+  | _, _ => s2sNonceLoop cfg now vps st
+
 def parseDPoP : DPoPIn → Res (Option DPoP)
   | .absent => .ok none
   | .invalid => .err "invalid_dpop_proof/dpop"
@@ -357,6 +365,8 @@ structure S2SReq where
   pex : Nat → Bool
   claims : Nat → Claims
   dpop : DPoPIn
+  /-- the session store fails the first read of a nonce entry during this request -/
+  nonceFault : Bool := false
 
 /-- `HandleTokenRequest` (vp_token-bearer case) + `handleS2SAccessTokenRequest`, in code order -/
 def issueS2S (cfg : Cfg) (w : World) (now : Nat) (r : S2SReq) : World × Res TokenResponse :=
@@ -376,7 +386,7 @@ def issueS2S (cfg : Cfg) (w : World) (now : Nat) (r : S2SReq) : World × Res Tok
         | .err e => (w, .err e)
         | .panic p => (w, .panic p)
         | .ok consumer =>
-          let (nonces, nres) := s2sNonceLoop cfg now r.vps w.s2sNonces
+          let (nonces, nres) := nonceCheck cfg now r.nonceFault r.vps w.s2sNonces
           let w1 := { w with s2sNonces := nonces }
           match nres with
           | .err e => (w1, .err e)
